@@ -340,6 +340,7 @@ of times); the body may first run complete inner test cases (which have their ow
 it may replace the default logger on its own account. -/
 inductive Test where
   | body (o : Outcome)
+  | logsBad (rest : Test)        -- the body logs an entry that must be reported (deviating from its type, not JSON, a traceback); goes on as `rest`
   | swaps (rest : Test)          -- the body calls `swap_logger(MemoryLogger())` itself and never puts the old one back; then goes on as `rest`
   | captured (t : Test)
   | inner (t : Test) (rest : Test)
@@ -350,7 +351,15 @@ structure St where
   fresh : Nat                   -- next MemoryLogger identity
   cleanups : List Cleanup       -- this test case's stack, most recent first
   seen : List Nat := []         -- the default logger each test body found, in execution order
+  bad : List Nat := []          -- loggers that received an entry `check_for_errors` must report
+  reported : List Nat := []     -- loggers whose `check_for_errors` cleanup has raised, in order
 deriving Repr
+
+/-- the `check_for_errors` cleanups of a finished test method, in the order they run, that find something -/
+def reportsOf (cleanups : List Cleanup) (bad : List Nat) : List Nat :=
+  cleanups.filterMap fun c => match c with
+    | .check l => if bad.contains l then some l else none
+    | .restore _ => none
 
 def runCleanups : List Cleanup → Nat → Nat
   | [], d => d
@@ -361,6 +370,7 @@ mutual
 /-- run the (possibly wrapped) test method inside a test case whose state is `s` -/
 def exec : Test → St → St
   | .body _, s => { s with seen := s.seen ++ [s.default] }   -- whatever the outcome, the exception just propagates
+  | .logsBad rest, s => exec rest { s with bad := s.default :: s.bad }
   | .swaps rest, s => exec rest { s with default := s.fresh, fresh := s.fresh + 1 }
   | .captured t, s =>
     -- validate_logging: logger = MemoryLogger(); addCleanup(check_for_errors, logger)
@@ -368,13 +378,14 @@ def exec : Test → St → St
     let logger := s.fresh
     exec t { s with default := logger, fresh := s.fresh + 1, cleanups := .restore s.default :: .check logger :: s.cleanups }
   | .inner t rest, s =>
-    let r := runCase t s.default s.fresh s.seen
-    exec rest { s with default := r.default, fresh := r.fresh, seen := r.seen }
-/-- `TestCase.run`: method, then `doCleanups()`; the state afterwards (its own cleanup stack is used up) -/
-def runCase : Test → Nat → Nat → List Nat → St
-  | t, d, fresh, seen =>
-    let s := exec t { default := d, fresh := fresh, cleanups := [], seen := seen }
-    { s with default := runCleanups s.cleanups s.default, cleanups := [] }
+    let r := runCase t s.default s.fresh s.seen s.bad s.reported
+    exec rest { s with default := r.default, fresh := r.fresh, seen := r.seen, bad := r.bad, reported := r.reported }
+/-- `TestCase.run`: method, then `doCleanups()` — every cleanup, whatever the method's outcome; the state
+afterwards (its own cleanup stack is used up) -/
+def runCase : Test → Nat → Nat → List Nat → List Nat → List Nat → St
+  | t, d, fresh, seen, bad, reported =>
+    let s := exec t { default := d, fresh := fresh, cleanups := [], seen := seen, bad := bad, reported := reported }
+    { s with default := runCleanups s.cleanups s.default, cleanups := [], reported := s.reported ++ reportsOf s.cleanups s.bad }
 end
 
 end VM
